@@ -12,10 +12,11 @@ pub mod props {
     pub mod c10;
     pub mod c16;
     pub mod c17;
+    pub mod c20;
 }
 
 use harness::Prop;
 
 pub fn props() -> Vec<&'static Prop> {
-    vec![&props::c06::PROP, &props::c07::PROP, &props::c08::PROP, &props::c09::PROP, &props::c10::PROP, &props::c16::PROP, &props::c17::PROP]
+    vec![&props::c06::PROP, &props::c07::PROP, &props::c08::PROP, &props::c09::PROP, &props::c10::PROP, &props::c16::PROP, &props::c17::PROP, &props::c20::PROP]
 }
